@@ -23,7 +23,7 @@ LEVEL_NOTE = (
     "The framing theorems take the aligner's outcome as an arbitrary hit. The ATG-mode aligner and the hit selection of "
     "alignAgainstRefsNT are modelled (lean/Gv/Model/PhaseAlign.lean, on top of C09's fillMatrix_SW model) and the clause 'a "
     "sequence containing the reference ORF verbatim once is trimmed at its start' is proved from C09's fill lemmas under "
-    "explicit hypotheses (nucleotide mode, one reference, forward strand, diagonally dominant scores: see 'partial'); "
+    "explicit hypotheses (nucleotide mode, one reference, diagonally dominant scores: see 'partial'); "
     "elsewhere it is only checked as a predicate on the implementation. Go memory model / scheduler outside the model; the "
     "consumer is assumed to drain the result channel.")
 TECHNIQUE = ("Lean 4 proof (list induction; transition system over all schedules; decide witnesses) + decidable checks "
@@ -42,13 +42,14 @@ REQUIRED_THEOREMS = ["Gv.Props.C16." + n for n in [
 PARTIAL = [
     "'a sequence that contains the reference ORF verbatim once is trimmed exactly at that ORF's start' is PROVED (from the C09 "
     "lemmas about the repaired fillMatrix_SW) only as ..._partial: for the nucleotide mode (alignAgainstRefsNT, model "
-    "lean/Gv/Model/PhaseAlign.lean), ONE reference, forward strand only (reverse=false), gap penalties gapopen <= gapextend < 0, "
+    "lean/Gv/Model/PhaseAlign.lean), ONE reference, gap penalties gapopen <= gapextend < 0, "
     "a reference without gap character, and a diagonally dominant scoring scheme (each residue of the reference scores > 0 "
     "against itself and strictly less against any other residue of the sequence): instances proved = any "
-    "SetAlignScores(match, mismatch) with mismatch < match, 0 < match, and the default DNAfull matrix on upper-case A/C/G/T; "
-    "'unless an alignment error is reported' is the theorem's other disjunct. NOT proved: translate mode (BLOSUM62 on the "
-    "3/6 translations), several references, both strands (reverse=true), ambiguity codes under DNAfull - there the clause "
-    "is checked only by the oracle predicate on the implementation's results",
+    "SetAlignScores(match, mismatch) with mismatch < match, 0 < match (one or both strands: the other strand can only tie, and "
+    "the forward hit is kept), and the default DNAfull matrix on upper-case A/C/G/T (forward strand); with both strands the "
+    "general theorem also asks dominance on the reverse-complemented copy. 'Unless an alignment error is reported' is the "
+    "theorem's other disjunct. NOT proved: translate mode (BLOSUM62 on the 3/6 translations), several references, ambiguity "
+    "codes under DNAfull - there the clause is checked only by the oracle predicate on the implementation's results",
     "the models of the ATG-mode aligner and of alignAgainstRefsNT are hand-written and tied to the code by the atgalign / "
     "phasent1 correspondence runs only; scores are dyadic rationals computed exactly (as for C09)",
     "two run-time panics of alignAgainstRefsNT (worker goroutine, kills the process) are part of the model and kernel-checked "
@@ -260,7 +261,7 @@ def align_cases(rng, quick):
         mt, mm = rng.choice([("_", "_"), ("_", "_"), ("2", "-2"), ("10", "-8")])
         once = seq.count(orf) == 1
         yield Case("phasent1", [2, go, ge, mt, mm, reverse, rng.choice([0, 1]), rng.choice([0, 1, 2]), refs, seq],
-                   once and bool(left) and not reverse, "phasent1")
+                   once and bool(left), "phasent1")
 
 
 def accepts(c):
